@@ -1,7 +1,8 @@
 /-
 C44  Address programming never creates an address conflict.
 Property theorems only (model: `XknxVerif.Model.Procedures`, lemmas: `XknxVerif.Lemmas.Procedures`); every
-statement is for ALL bus populations (any number of devices, any addresses).
+statement is for ALL bus populations (any number of devices, any addresses) and both delivery timings (`sync`: a device's
+reaction is processed while the causing send is still awaited, or afterwards).
 -/
 import XknxVerif.Lemmas.Procedures
 
@@ -14,7 +15,7 @@ def responsive (bus : Bus) (x : Nat) : Nat :=
 
 /-! ### (1) the broadcast write -/
 
-private theorem not_found_silent {bus : Bus} (hf : (checkAddress bus target).1 = false) :
+private theorem not_found_silent {sync : Bool} {bus : Bus} (hf : (checkAddress sync bus target).1 = false) :
     ∀ d ∈ bus, d.addr = target → d.beh = .silent := by
   rw [checkAddress_found] at hf
   simp only [Bool.or_eq_false_iff, decide_eq_false_iff_not] at hf
@@ -29,14 +30,14 @@ private theorem one_prog {bus : Bus} {p : Nat} (hp : progAddrs bus = [p]) : (bus
 
 /-- The A_IndividualAddress_Write broadcast is sent ⇒ the address written is the target, exactly one device is
 in programming mode, and every device at the target address is silent (no device answers or refuses there). -/
-theorem write_only_if_safe (bus : Bus) (a : Nat) (h : Tel.bWrite a ∈ (addrWrite bus).tels) :
+theorem write_only_if_safe (sync : Bool) (bus : Bus) (a : Nat) (h : Tel.bWrite a ∈ (addrWrite sync bus).tels) :
     a = target ∧ (bus.filter (·.prog)).length = 1 ∧ ∀ d ∈ bus, d.addr = target → d.beh = .silent := by
-  have hc : ∀ x, Tel.bWrite a ∉ (checkAddress bus x).2.1 := by
-    intro x hm; rcases checkAddress_tels bus x _ hm with h | h | h <;> simp at h
-  have hr : ∀ b x, Tel.bWrite a ∉ (restartSession b x).tels := by
-    intro b x hm; rcases restartSession_tels b x _ hm with h | h | h | h <;> simp at h
-  have hcase := addrWrite_cases bus
-  generalize addrWrite bus = out at hcase h
+  have hc : ∀ x, Tel.bWrite a ∉ (checkAddress sync bus x).2.1 := by
+    intro x hm; rcases checkAddress_tels sync bus x _ hm with h | h | h <;> simp at h
+  have hr : ∀ b x, Tel.bWrite a ∉ (restartSession sync b x).tels := by
+    intro b x hm; rcases restartSession_tels sync b x _ hm with h | h | h | h <;> simp at h
+  have hcase := addrWrite_cases sync bus
+  generalize addrWrite sync bus = out at hcase h
   cases hcase with
   | fail _ =>
     simp only [List.mem_append, List.mem_singleton] at h
@@ -59,10 +60,10 @@ theorem write_only_if_safe (bus : Bus) (a : Nat) (h : Tel.bWrite a ∈ (addrWrit
     · exact absurd h (hr _ _)
 
 /-- A device that answers or refuses at the target address ⇒ nothing is written. -/
-theorem occupied_target_no_write (bus : Bus) (d : Dev) (hd : d ∈ bus) (hx : d.addr = target)
-    (hb : d.beh ≠ .silent) (a : Nat) : Tel.bWrite a ∉ (addrWrite bus).tels := by
+theorem occupied_target_no_write (sync : Bool) (bus : Bus) (d : Dev) (hd : d ∈ bus) (hx : d.addr = target)
+    (hb : d.beh ≠ .silent) (a : Nat) : Tel.bWrite a ∉ (addrWrite sync bus).tels := by
   intro h
-  exact hb ((write_only_if_safe bus a h).2.2 d hd hx)
+  exact hb ((write_only_if_safe sync bus a h).2.2 d hd hx)
 
 /-! ### (2) no new conflict -/
 
@@ -72,9 +73,9 @@ private theorem responsive_restartAt (bus : Bus) (x y : Nat) : responsive (resta
   intro d _ h
   split at h <;> simpa using h
 
-private theorem responsive_restartSession (bus : Bus) (x y : Nat) :
-    responsive (restartSession bus x).bus y ≤ responsive bus y := by
-  rcases restartSession_bus bus x with h | h <;> rw [h]
+private theorem responsive_restartSession (sync : Bool) (bus : Bus) (x y : Nat) :
+    responsive (restartSession sync bus x).bus y ≤ responsive bus y := by
+  rcases restartSession_bus sync bus x with h | h <;> rw [h]
   · exact Nat.le_refl _
   · exact responsive_restartAt bus x y
 
@@ -109,34 +110,34 @@ private theorem responsive_writeAddr (bus : Bus) (x : Nat) (hone : (bus.filter (
 
 /-- The procedure never creates an address conflict: at every address, the number of devices that answer or
 refuse afterwards is at most what it was before, or 1 (the freshly programmed device). -/
-theorem no_new_conflict (bus : Bus) (x : Nat) :
-    responsive (addrWrite bus).bus x ≤ max (responsive bus x) 1 := by
-  have hcase := addrWrite_cases bus
-  generalize addrWrite bus = out at hcase ⊢
+theorem no_new_conflict (sync : Bool) (bus : Bus) (x : Nat) :
+    responsive (addrWrite sync bus).bus x ≤ max (responsive bus x) 1 := by
+  have hcase := addrWrite_cases sync bus
+  generalize addrWrite sync bus = out at hcase ⊢
   cases hcase with
   | fail _ => simp only; omega
   | held _ _ =>
     simp only
-    have := responsive_restartSession bus target x
+    have := responsive_restartSession sync bus target x
     omega
   | write p hp hf =>
     simp only
-    have h1 := responsive_restartSession (writeAddr bus target) target x
+    have h1 := responsive_restartSession sync (writeAddr bus target) target x
     have h2 := responsive_writeAddr bus x (one_prog hp) (not_found_silent hf)
     omega
 
 /-! ### (3) what is restarted -/
 
 /-- A_Restart is only ever sent to the target address. -/
-theorem restart_only_to_target (bus : Bus) (x n : Nat) (h : Tel.data x n .restart ∈ (addrWrite bus).tels) :
+theorem restart_only_to_target (sync : Bool) (bus : Bus) (x n : Nat) (h : Tel.data x n .restart ∈ (addrWrite sync bus).tels) :
     x = target := by
-  have hc : ∀ y, Tel.data x n .restart ∉ (checkAddress bus y).2.1 := by
-    intro y hm; rcases checkAddress_tels bus y _ hm with h | h | h <;> simp at h
-  have hr : ∀ b, Tel.data x n .restart ∈ (restartSession b target).tels → x = target := by
-    intro b hm; rcases restartSession_tels b target _ hm with h | h | h | h <;> simp at h
+  have hc : ∀ y, Tel.data x n .restart ∉ (checkAddress sync bus y).2.1 := by
+    intro y hm; rcases checkAddress_tels sync bus y _ hm with h | h | h <;> simp at h
+  have hr : ∀ b, Tel.data x n .restart ∈ (restartSession sync b target).tels → x = target := by
+    intro b hm; rcases restartSession_tels sync b target _ hm with h | h | h | h <;> simp at h
     exact h.1
-  have hcase := addrWrite_cases bus
-  generalize addrWrite bus = out at hcase h
+  have hcase := addrWrite_cases sync bus
+  generalize addrWrite sync bus = out at hcase h
   cases hcase with
   | fail _ =>
     simp only [List.mem_append, List.mem_singleton] at h
@@ -173,10 +174,10 @@ theorem restartAt_changes (bus : Bus) (x i : Nat) (d d' : Dev) (h : bus[i]? = so
 
 /-- The only device in programming mode already answers at the target address (and nobody refuses there) ⇒
 no write; the device is restarted and the procedure succeeds. -/
-theorem held_target_restart_only (bus : Bus) (hprog : progAddrs bus = [target])
+theorem held_target_restart_only (sync : Bool) (bus : Bus) (hprog : progAddrs bus = [target])
     (hA : 0 < countAt bus target .answers) (hR : ¬ 0 < countAt bus target .refuses) :
-    (addrWrite bus).res = .ok ∧ (∀ a, Tel.bWrite a ∉ (addrWrite bus).tels) ∧
-    Tel.data target 1 .restart ∈ (addrWrite bus).tels ∧ (addrWrite bus).bus = restartAt bus target := by
+    (addrWrite sync bus).res = .ok ∧ (∀ a, Tel.bWrite a ∉ (addrWrite sync bus).tels) ∧
+    Tel.data target 1 .restart ∈ (addrWrite sync bus).tels ∧ (addrWrite sync bus).bus = restartAt bus target := by
   simp [addrWrite, checkAddress, hR, hA, hprog, restartSession]
 
 /-! ### (5) serial-number procedures -/
@@ -258,9 +259,9 @@ theorem authorize2_last (l1 l2 l3 : Nat) :
     (authorize2 l1 l2 l3) = if l1 = 0 then (l1, 1) else if l2 > l1 then (l3, 3) else (l2, 2) := rfl
 
 /-! ### Non-vacuity -/
-example : Tel.bWrite target ∈ (addrWrite [⟨1, true, .answers⟩, ⟨0, false, .silent⟩]).tels := by decide
-example : (addrWrite [⟨1, true, .answers⟩, ⟨0, false, .silent⟩]).bus = [⟨0, false, .answers⟩, ⟨0, false, .silent⟩] := by decide
-example : Tel.bWrite target ∉ (addrWrite [⟨1, true, .answers⟩, ⟨0, false, .refuses⟩]).tels := by decide
+example : Tel.bWrite target ∈ (addrWrite false [⟨1, true, .answers⟩, ⟨0, false, .silent⟩]).tels := by decide
+example : (addrWrite false [⟨1, true, .answers⟩, ⟨0, false, .silent⟩]).bus = [⟨0, false, .answers⟩, ⟨0, false, .silent⟩] := by decide
+example : Tel.bWrite target ∉ (addrWrite false [⟨1, true, .answers⟩, ⟨0, false, .refuses⟩]).tels := by decide
 example : progAddrs [⟨0, true, .answers⟩, ⟨1, false, .answers⟩] = [target] ∧
     0 < countAt [⟨0, true, .answers⟩, ⟨1, false, .answers⟩] target .answers := by decide
 example : serialRead [⟨1, 2, true, true⟩, ⟨0, 1, false, true⟩] 1 = some 0 := by decide
